@@ -13,7 +13,7 @@ Use from a property script:
     rdvb.obligations(ctx); rdvb.tie(ctx)
 """
 import os
-from vlib import VERIF
+from vlib import VERIF, CHAN_RUSTFLAGS
 
 THEOREMS = [l.strip() for l in open(os.path.join(VERIF, "props", "rdvb.theorems")) if l.strip() and not l.startswith("#")]
 MODULE = "Fv.Props.RendezvousB"
@@ -44,7 +44,7 @@ def obligations(ctx):
 def tie(ctx, cases=None):
     """Tie (i): history inclusion at critical-section granularity (search for an explaining model run)."""
     drv = ctx.lean_exe("fvdrv_lockedchan")
-    h = ctx.cargo_build("chan", "chanh", rustflags="--cfg loom")
+    h = ctx.cargo_build("chan", "chanh", rustflags=CHAN_RUSTFLAGS)
     ctx.assumptions += [a for a in ASSUMPTIONS if a not in ctx.assumptions]
     if ctx.replay:
         return [ctx.tie("rdvb-replay", [h, "run", ctx.replay], [drv])]
